@@ -176,7 +176,7 @@ func c03Do(f func() string) string {
 	select {
 	case s := <-done:
 		return s
-	case <-time.After(20 * time.Second):
+	case <-time.After(90 * time.Second): // generous: a loaded machine must not turn a slow run into a verdict
 		return "hang"
 	}
 }
